@@ -23,7 +23,6 @@ import (
 	"os"
 	"path/filepath"
 	"strings"
-
 )
 
 type tr struct {
